@@ -15,6 +15,9 @@
 #ifndef N
 # define N 6
 #endif
+#ifndef TWO_STEP
+# define TWO_STEP 1
+#endif
 #define G 4
 
 static uint8_t buf[G + N + G];
@@ -56,6 +59,9 @@ void harness(void)
 	int r;
 
 	V_ASSUME(n1 <= n);
+#if !TWO_STEP
+	V_ASSUME(n1 == n);
+#endif
 	for (i = 0; i < G; i++) buf[i] = buf[G + N + i] = 0xC3;
 	for (i = 0; i < N; i++) { orig[i] = V_IN_U8("in"); buf[G + i] = orig[i]; }
 	src.iov_base = buf + G;
